@@ -2,7 +2,7 @@ import OjgVerif.Json.NumValue
 import OjgVerif.Json.NumConv
 /-! # The accumulator of `gen/number.go` tracks the literal exactly
 
-`Tracks n p`: after the bytes of the (partial) literal `p` the accumulator `n` either holds `p`
+`Tracks n p`: after the bytes of the (possibly unfinished) literal `p` the accumulator `n` either holds `p`
 exactly in its integer fields (`Exact`: nothing has wrapped, the integer part fits int64), or it is
 in text form and its text is a decimal text with the same sign, the same integer value, fraction
 digits of the same number and value, and the same exponent as `p` (`TextB`/`Sim`). Every accumulator
